@@ -27,16 +27,22 @@ def confirm(d, tests):
   print(json.dumps(out, indent=1))
 
 def check(d, pids, tier):
-  assert sh('git -C /repo diff --quiet').returncode == 0, '/repo dirty'
-  r = sh('git -C /repo apply %s/patch.diff' % d); assert r.returncode == 0, r.stderr
+  """Runs the checks against a scratch worktree with the patch applied
+  (VERIF_REPO), so that /repo itself is never touched."""
+  W = '/tmp/wt_seed'
+  if not os.path.isdir(W):
+    r = sh('git -C /repo worktree add -q --detach %s main' % W); assert r.returncode == 0, r.stderr
+  sh('git -C %s checkout -q --detach main && git -C %s checkout -- .' % (W, W))
+  r = sh('git -C %s apply %s/patch.diff' % (W, d)); assert r.returncode == 0, r.stderr
   try:
     for pid in pids.split(','):
-      r = subprocess.run(['/verif/check', pid, '--tier', tier], capture_output=True, text=True)
+      r = subprocess.run(['/verif/check', pid, '--tier', tier], capture_output=True, text=True,
+                         env=dict(os.environ, VERIF_REPO=W))
       lines = [l for l in r.stdout.splitlines() if l.startswith(('VIOLATION', 'OK', 'FAIL', 'KNOWN', '  key'))]
       print('\n'.join(lines[:6] + lines[-1:]))
       print('SEEDED %s %s rc=%d' % (d, pid, r.returncode))
   finally:
-    sh('git -C /repo checkout -- .')
+    sh('git -C %s checkout -- .' % W)
 
 if sys.argv[1] == 'confirm':
   confirm(os.path.abspath(sys.argv[2]), sys.argv[3:])
